@@ -48,7 +48,7 @@ func NewTagCmd(v *viper.Viper) (*cobra.Command, error) {
 	flags := cmd.PersistentFlags()
 	flags.Bool("dry-run", true, "print, but do not perform, any actions")
 
-	viper.BindPFlag("dry-run", flags.Lookup("dry-run"))
+	v.BindPFlag("dry-run", flags.Lookup("dry-run"))
 
 	return cmd, nil
 }
